@@ -250,7 +250,7 @@ def real_stop_decision(chk, eng, st_cfg, g, total):
     out = []
     for k, v, s in eng.call_func(cls.find_method("__init__"), [self_, exes, None, cfg, fresh("any", "sub_top"), fresh("any", "sub_iter"), "p-", None], {}, st):
         if k == "raise":
-            chk.fault("ConcurrentExecutor.__init__ raised")
+            chk.prove("C09.exec.init_policy_mapping", s.pc, F, desc="ConcurrentExecutor.__init__ does not raise on a well-formed completion configuration")
             continue
         counters = s.get(self_)["counters"]
         cf = s.get(counters)
@@ -268,7 +268,7 @@ def real_stop_decision(chk, eng, st_cfg, g, total):
         s.setfield(counters, "failure_count", Sym("int", g["f"]))
         for k2, v2, s2 in eng.call_func(P.cls("concurrency.models.ExecutionCounters").find_method("should_complete"), [counters], {}, s):
             if k2 == "raise":
-                chk.fault("should_complete raised")
+                chk.prove("C09.exec.init_policy_mapping", s2.pc, F, desc="ExecutionCounters.should_complete does not raise")
                 continue
             out.append((list(s2.pc), z3.BoolVal(v2) if isinstance(v2, bool) else zbool(v2)))
     return out
@@ -667,7 +667,8 @@ def replay_items(chk, prefix="C16"):
                   desc="replay reads each branch's record under the branch's logical id; SUCCEEDED => item from re-running the branch through its child handler; FAILED => the recorded error; otherwise STARTED; no other branch body is entered; classified with the executor's completion config",
                   sample="ConcurrentExecutor.replay over two arbitrary branches")
     if not n_ok:
-        chk.fault("replay: no normal path")
+        # cover obligation: the contract above is vacuous if replay() never returns (every explored path raised)
+        chk.prove(f"{prefix}.exec.replay_items", [], F, desc="replay() returns a BatchResult on some path (reachability of the contract above: every explored path raised)")
     return eng
 
 
@@ -1005,7 +1006,8 @@ def timer_loop(chk, prefix="C07"):
                       desc="a branch handed to the resubmission callback is already PENDING (so the executor's suspend decision sees it as unfinished during the blocking refresh)",
                       sample="_timer_loop iteration with one due branch")
     if not seen:
-        chk.fault("timer loop: the resubmission path was not reached")
+        # cover obligation: the contract above is vacuous if no explored path of the loop hands a due branch to the callback
+        chk.prove(f"{prefix}.timer.pending_before_refresh", [], F, desc="reachability: some path of _timer_loop with one due branch reaches the resubmission callback")
     return eng
 
 
